@@ -54,6 +54,7 @@ class Model:
         self.atoms = {}
         self.den_atoms = {}
         self.form_names = {}
+        self._den_stack = set()
         self.count = 0
         self.install_integrand_arithmetic()
 
@@ -135,6 +136,13 @@ class Model:
         ip.overrides["extract_arguments"] = lambda form: extract_arguments_and_coefficients(form)[0]
         ip.overrides["extract_terminals_with_domain"] = lambda form: (extract_arguments_and_coefficients(form)[0], [], [])
 
+    def identity(self, S, co=False):
+        """Argument in S (resp. Coargument in S*): the identity on S, as an operand of an action"""
+        o = self.W.new("ufl.argument.Coargument", self.W.call_method(S, "dual"), 0) if co else self.W.argument(S, 1)
+        n = self.dim(S)
+        self.den_atoms[id(o)] = (o, T((n, n), (), (), {((i, j), ()): (sym.ONE if i == j else sym.ZERO) for i in range(n) for j in range(n)}), (S, S))
+        return o
+
     def zero(self, *spaces):
         args = tuple(self.W.argument(S, k) for k, S in enumerate(spaces))
         return self.W.new("ufl.form.ZeroBaseForm", args)
@@ -146,6 +154,17 @@ class Model:
 
     def den(self, o):
         """-> (T, spaces)"""
+        if isinstance(o, Obj):
+            if id(o) in self._den_stack:
+                raise LiftRaise(f"ValueError: the object built contains itself ({self.cls(o)} reached again while evaluating its own operands): an operand was re-initialised in place")
+            self._den_stack.add(id(o))
+            try:
+                return self._den(o)
+            finally:
+                self._den_stack.discard(id(o))
+        return self._den(o)
+
+    def _den(self, o):
         if isinstance(o, int) and not isinstance(o, bool) and o == 0:
             return None
         if id(o) in self.den_atoms:
@@ -226,6 +245,8 @@ def run(ctx) -> Report:
         "a(VxU)": Mo.form("a", V, U),
     }
     vectors = {"u(V)": Mo.coefficient("u", V), "w(U)": Mo.coefficient("w", U)}
+    identities_right = {"Argument(V)": Mo.identity(V), "Argument(U)": Mo.identity(U)}
+    identities_left = {"Coargument(V*)": Mo.identity(V, co=True), "Coargument(U*)": Mo.identity(U, co=True)}
     where = {n: prog.lookup(prog.get_class(q), "__new__") for n, q in (("Action", "ufl.action.Action"), ("Adjoint", "ufl.adjoint.Adjoint"), ("FormSum", "ufl.form.FormSum"))}
     where_ops = prog.get_class("ufl.form.BaseForm")
 
@@ -253,6 +274,19 @@ def run(ctx) -> Report:
         for (n1, b1, (t1, s1)), (n2, b2, (t2, s2)) in itertools.product(items, vecs):
             if s1 and Mo.same_space(s1[-1], s2[0]):
                 out.append((f"action({n1}, {n2})", "Action", (lambda b1=b1, b2=b2: W.new("ufl.action.Action", b1(), b2())), Mo.contract((t1, s1), (t2, s2))))
+        out += with_identities(items)
+        return out
+
+    def with_identities(items):
+        """identity arguments: action(X, Argument in the space of X's last argument) = X = action(Coargument, X)"""
+        out = []
+        for n1, b1, (t1, s1) in items:
+            for n2, o2 in identities_right.items():
+                if s1 and Mo.same_space(s1[-1], Mo.den(o2)[1][0]):
+                    out.append((f"action({n1}, {n2})", "Action", (lambda b1=b1, o2=o2: W.new("ufl.action.Action", b1(), o2)), (t1, s1)))
+            for n2, o2 in identities_left.items():
+                if s1 and Mo.same_space(s1[0], Mo.den(o2)[1][0]):
+                    out.append((f"action({n2}, {n1})", "Action", (lambda b1=b1, o2=o2: W.new("ufl.action.Action", o2, b1())), (t1, s1)))
         return out
 
     def _env(ip_, **kw):
@@ -269,6 +303,9 @@ def run(ctx) -> Report:
         nxt = compose(cur if d == 0 else cur + level, vec)
         family += [x for x in nxt]
         # next level composes over what was built at this level (bounded)
+        if d == 0:
+            # every first-level composition (not only the ones composed further) under the identity arguments
+            family += with_identities([(n, b, den) for n, _, b, den in nxt if den[1] and "Argument(" not in n and "Coargument(" not in n])
         cur = [(n, b, den) for n, _, b, den in nxt if den[1]][: 40 if d == 0 else 25]
     n_ok = 0
     n_rejected = 0
